@@ -180,7 +180,7 @@ func interleavedGet(c cacheUnderTest, backend string) {
 		} else {
 			c.Delete(k)
 		}
-	}, 1)
+	}, vParam("interpose", 1))
 	h, gerr := c.Get(k)
 	vInterpose(nil, 0)
 	if vInterposed() > 0 {
